@@ -376,7 +376,7 @@ func (t inproc) Do(req *http.Request) (*http.Response, error) {
 
 type tables struct {
 	hrefEnc, hrefDec, quote, unquote, timeFmt, timeParse, text, mime map[string]string
-	hi map[rune]bool // runes above U+00FF in the entity tags that strconv.IsPrint accepts
+	hi                                                               map[rune]bool // runes above U+00FF in the entity tags that strconv.IsPrint accepts
 }
 
 func newTables() *tables {
